@@ -307,6 +307,9 @@ fn float_hard_cases(rng: &mut Rng, n: usize) -> Vec<String> {
     .into_iter()
     .map(String::from)
     .collect();
+    for s in ["1E000002", "-2.5e+0000001", "100.0e0000000", "5E-000001", "1E+00000000000000000000038", "1e-0", "1E+0", "0001E0001"] {
+        v.push(s.to_string());
+    }
     for e in ["127", "128", "-128", "-129", "255", "256", "32767", "-32768", "32768", "-32769", "65535", "65536", "2147483647", "-2147483648", "2147483648", "9223372036854775807", "-9223372036854775808"] {
         v.push(format!("1E{}", e));
         v.push(format!("-2.5e{}", e));
